@@ -228,20 +228,29 @@ pub fn rebaseline() {
     }
 }
 
-/// Like `rebaseline`, for points where short-lived tasks may still be finishing: takes the
-/// minimum number of alive tasks seen over a short window (transient tasks only ever add).
+/// Like `rebaseline`, for points where short-lived tasks may still be finishing or long-lived
+/// ones are still being spawned: waits until the number of alive tasks has been the same for
+/// 10 ms (40 consecutive samples), at most 2 s, and records that value.
 pub async fn rebaseline_settled() {
-    let mut min = alive_tasks();
-    for _ in 0..40 {
+    let start = Instant::now();
+    let mut last = alive_tasks();
+    let mut same = 0;
+    while same < 40 && start.elapsed() < Duration::from_secs(2) {
         tokio::time::sleep(Duration::from_micros(250)).await;
-        min = min.min(alive_tasks());
+        let now = alive_tasks();
+        if now == last {
+            same += 1;
+        } else {
+            last = now;
+            same = 0;
+        }
     }
     let id = tokio::runtime::Handle::current().id();
     let mut g = BASELINES.lock().unwrap();
     if let Some(e) = g.iter_mut().find(|e| e.0 == id) {
-        e.1 = min as u64;
+        e.1 = last as u64;
     } else {
-        g.push((id, min as u64));
+        g.push((id, last as u64));
     }
 }
 
